@@ -40,6 +40,8 @@ pub enum Case {
     Tok { text: String, class: String },
     History { text: String, ops: Vec<Op> },
     Split { text: String, config: String },
+    /// `parse_sequences::<T>` with a probe item type of the given name (the function dispatches on the name)
+    Sequences { text: String, item: String },
 }
 
 /// Field numbers whose option letter the library documents as kept ("fields that have multiple
@@ -449,6 +451,111 @@ fn judge_split(text: &str, config: &str, l: &mut Local, case: &Case, stratum: &s
     }
 }
 
+
+/// Probe item types for `parse_sequences`, which chooses its grouping rule by the *name* of the item type:
+/// each probe keeps the text block it is handed, so the grouping can be read off
+mod probes {
+    use serde::Serialize;
+    use swift_mt_message::SwiftMessageBody;
+    macro_rules! probe {
+        ($($n:ident),*) => {$(
+            #[derive(Debug, Clone, Serialize)]
+            pub struct $n {
+                pub block4: String,
+            }
+            impl SwiftMessageBody for $n {
+                fn message_type() -> &'static str {
+                    "000"
+                }
+                fn parse_from_block4(b: &str) -> swift_mt_message::Result<Self> {
+                    Ok($n { block4: b.to_string() })
+                }
+                fn to_mt_string(&self) -> String {
+                    self.block4.clone()
+                }
+            }
+        )*};
+    }
+    probe!(MT101Transaction, MT104Transaction, MT110Cheque, MT204Transaction, MT920Sequence, MT935RateChange, MT940StatementLine, MT942StatementLine);
+}
+
+fn judge_sequences(text: &str, item: &str, l: &mut Local, case: &Case, stratum: &str) {
+    use swift_mt_message::parser::{FieldConsumptionTracker, parse_sequences};
+    let Ok(Ok(map)) = guard(|| parse_block4_fields(text)) else {
+        l.eval(stratum, "rejected", false, 0);
+        return;
+    };
+    let mut tracker = FieldConsumptionTracker::new();
+    macro_rules! run {
+        ($t:ty) => {
+            guard(|| parse_sequences::<$t>(&map, &mut tracker).map(|v| v.into_iter().map(|x| x.block4).collect::<Vec<String>>()))
+        };
+    }
+    let r = match item {
+        "MT101Transaction" => run!(probes::MT101Transaction),
+        "MT104Transaction" => run!(probes::MT104Transaction),
+        "MT110Cheque" => run!(probes::MT110Cheque),
+        "MT204Transaction" => run!(probes::MT204Transaction),
+        "MT920Sequence" => run!(probes::MT920Sequence),
+        "MT935RateChange" => run!(probes::MT935RateChange),
+        "MT940StatementLine" => run!(probes::MT940StatementLine),
+        _ => run!(probes::MT942StatementLine),
+    };
+    let Ok(Ok(items)) = r else {
+        l.eval(stratum, "error-or-panic(C07)", false, 0);
+        return;
+    };
+    l.eval(stratum, "grouped", true, hash_bytes2(item, text));
+    let all = flatten(&map);
+    // what each item holds, read with the reference tokeniser
+    let held: Vec<Vec<(String, String)>> = items.iter().map(|b| tok::tokenize(b).fields.into_iter().map(|f| (f.tag, f.content.trim().to_string())).collect()).collect();
+    // (1) nothing invented, nothing handed out twice: the items' fields are a sub-multiset of the input's
+    let mut pool: Vec<(String, String)> = all.iter().map(|x| (x.0.clone(), x.1.clone())).collect();
+    for it in &held {
+        for f in it {
+            // map keys of numbers without documented variants carry no letter: compare on the number then
+            if let Some(i) = pool.iter().position(|p| p.1 == f.1 && (p.0 == f.0 || p.0 == f.0[..2.min(f.0.len())])) {
+                pool.remove(i);
+            } else {
+                v(l, "parse_sequences", "field-in-two-items-or-invented", item, format!("an item holds field {} with a content that is not (or no longer) available in the input ({item})", f.0), case);
+                return;
+            }
+        }
+    }
+    // (2) consumption agrees with the grouping: what is in an item is consumed, what is in none is still available
+    let mut still: Vec<(String, String)> = Vec::new();
+    for (k, vs) in &map {
+        let mut n = 0;
+        while let Some((val, pos)) = tracker.get_next_available(k, vs).map(|(a, b)| (a.to_string(), b)) {
+            tracker.mark_consumed(k, pos);
+            still.push((k.clone(), val));
+            n += 1;
+            if n > vs.len() {
+                break;
+            }
+        }
+    }
+    let mut a = pool.clone();
+    let mut b = still.clone();
+    a.sort();
+    b.sort();
+    // (the MT204Transaction branch rebuilds its items from the per-tag lists and documents no consumption)
+    if a != b && item != "MT204Transaction" {
+        v(l, "parse_sequences", "consumption-disagrees-with-grouping", item, format!("{} occurrences are in no item but {} are still available from the tracker ({item})", a.len(), b.len()), case);
+    }
+    // (3) the documented statement-line rule: an item is one field 61 and at most the one field 86 that follows it
+    if item == "MT942StatementLine" {
+        for it in &held {
+            let n61 = it.iter().filter(|f| f.0 == "61").count();
+            let n86 = it.iter().filter(|f| f.0 == "86").count();
+            if n61 != 1 || n86 > 1 || it.len() != n61 + n86 {
+                v(l, "parse_sequences", "statement-line-item-not-61-plus-one-86", item, format!("a statement-line item holds {:?}", it.iter().map(|f| f.0.as_str()).collect::<Vec<_>>()), case);
+                break;
+            }
+        }
+    }
+}
+
 pub fn judge(_cfg: &Config, case: &Case, l: &mut Local, stratum: &str) {
     match case {
         Case::Tok { text, class } => {
@@ -456,6 +563,7 @@ pub fn judge(_cfg: &Config, case: &Case, l: &mut Local, stratum: &str) {
         }
         Case::History { text, ops } => judge_history(text, ops, l, case, stratum),
         Case::Split { text, config } => judge_split(text, config, l, case, stratum),
+        Case::Sequences { text, item } => judge_sequences(text, item, l, case, stratum),
     }
 }
 
@@ -611,6 +719,25 @@ pub fn run(cfg: &Config) -> i32 {
                 let mut rr = Rng::new(cfg.seed, "c16-hist", (k * 1000 + ti * 200 + h) as u64);
                 let n = 2 + rr.below(14);
                 cases.push(("history".into(), Case::History { text: t.clone(), ops: random_ops(&tags, &mut rr, n) }));
+            }
+        }
+        for item in ["MT101Transaction", "MT104Transaction", "MT110Cheque", "MT204Transaction", "MT920Sequence", "MT935RateChange", "MT940StatementLine", "MT942StatementLine"] {
+            cases.push((format!("sequences/{item}"), Case::Sequences { text: plain.clone(), item: item.into() }));
+        }
+        // statement texts with a message-level 86 right behind the last 61 / 86 pair (no 90C / 90D in between)
+        if e.mt == "942" || e.mt == "940" {
+            let fs: Vec<Token> = toks.fields.iter().filter(|f| !f.tag.starts_with("90")).cloned().collect();
+            let mut with86 = fs.clone();
+            if let Some(i) = with86.iter().rposition(|f| f.tag == "61") {
+                let at = if with86.get(i + 1).map(|f| f.tag == "86").unwrap_or(false) { i + 2 } else { i + 1 };
+                if with86.get(i + 1).map(|f| f.tag != "86").unwrap_or(true) {
+                    with86.insert(i + 1, Token { tag: "86".into(), content: "LINE INFORMATION".into() });
+                }
+                let at = at.max(i + 2).min(with86.len());
+                with86.insert(at, Token { tag: "86".into(), content: "INFORMATION TO THE ACCOUNT OWNER".into() });
+                for item in ["MT942StatementLine", "MT940StatementLine"] {
+                    cases.push((format!("sequences/{item}"), Case::Sequences { text: tok::render(&with86, false, false), item: item.into() }));
+                }
             }
         }
         for config in ["MT101", "MT104", "MT107", "MT110", "MT204", "MT935", "MT940", "MT942", "MT000", "statement"] {
